@@ -171,7 +171,14 @@ inline MVal gen_good_op(Rng& r, const MVal& doc, const GenOpts& go) {
         }
         if (sel < 6) { if (p.empty()) continue; return mk_op("remove", make_ptr(p)); }
         if (sel < 8) { if (p.empty() && r.chance(3, 4)) continue; MVal o = mk_op("replace", make_ptr(p)); o.set("value", gen_value(r, small, 1)); return o; }
-        if (sel == 8) { MVal o = mk_op("test", make_ptr(p)); o.set("value", *node); return o; }
+        if (sel == 8) {
+            MVal o = mk_op("test", make_ptr(p));
+            // RFC 6902 4.6: numbers are equal when numerically equal, whatever their representation
+            if (node->k == MVal::Int && node->i > -1000000 && node->i < 1000000 && r.chance(1, 3)) o.set("value", MVal::dbl((double)node->i));
+            else if (node->k == MVal::Dbl && node->d == (double)(int64_t)node->d && node->d > -1e6 && node->d < 1e6 && r.chance(1, 3)) o.set("value", MVal::integer((int64_t)node->d));
+            else o.set("value", *node);
+            return o;
+        }
         // move / copy: from p to a new location under some container q
         const auto& q0 = paths[r.below(paths.size())];
         MVal* tgt = resolve(d, q0, q0.size());
@@ -194,7 +201,9 @@ inline MVal gen_good_op(Rng& r, const MVal& doc, const GenOpts& go) {
 static const char* const fail_classes[] = {
     "test_mismatch", "test_missing_path", "remove_missing", "replace_missing", "add_missing_parent", "index_out_of_range",
     "index_leading_zero", "index_negative", "index_plus", "index_nonnumeric", "dash_remove", "move_missing_from", "copy_missing_from",
-    "missing_op", "missing_path", "missing_value", "missing_from", "unknown_op", "bad_pointer_tilde", "bad_pointer_noslash", "move_into_child"
+    "missing_op", "missing_path", "missing_value", "missing_from", "unknown_op", "bad_pointer_tilde", "bad_pointer_noslash", "move_into_child",
+    "index_eq_size_remove", "index_eq_size_replace", "index_eq_size_test", "dash_replace", "dash_test", "dash_from", "op_not_string", "test_type_mismatch",
+    "scalar_parent", "bad_pointer_trailing_tilde"
 };
 constexpr size_t n_fail_classes = sizeof(fail_classes) / sizeof(fail_classes[0]);
 
@@ -238,6 +247,42 @@ inline MVal gen_bad_op(Rng& r, const MVal& doc, const std::string& cls) {
     if (cls == "unknown_op") { o = mk_op("frobnicate", ""); o.set("value", MVal::integer(1)); return o; }
     if (cls == "bad_pointer_tilde") { o = mk_op("add", "/a~2b"); o.set("value", MVal::integer(1)); return o; }
     if (cls == "bad_pointer_noslash") { o = mk_op("add", "abc"); o.set("value", MVal::integer(1)); return o; }
+    if (cls == "index_eq_size_remove" || cls == "index_eq_size_replace" || cls == "index_eq_size_test") {
+        if (arrays.empty()) return MVal();
+        auto q = arrays[r.below(arrays.size())]; MVal* n = resolve(d, q, q.size());
+        q.push_back(std::to_string(n->a.size()));
+        const char* opn = cls == "index_eq_size_remove" ? "remove" : cls == "index_eq_size_replace" ? "replace" : "test";
+        o = mk_op(opn, make_ptr(q)); if (cls != "index_eq_size_remove") o.set("value", MVal::integer(1)); return o;
+    }
+    if (cls == "dash_replace") { if (!arr_with("-", o, "replace", true)) return MVal(); return o; }
+    if (cls == "dash_test") { if (!arr_with("-", o, "test", true)) return MVal(); return o; }
+    if (cls == "dash_from") {
+        if (arrays.empty() || doc.k != MVal::Obj) return MVal();
+        auto q = arrays[r.below(arrays.size())]; q.push_back("-");
+        o = mk_op(r.coin() ? "copy" : "move", "/dash_target"); o.set("from", MVal::str(make_ptr(q))); return o;
+    }
+    if (cls == "op_not_string") { o = MVal::obj(); o.set("op", MVal::integer(5)); o.set("path", MVal::str("")); o.set("value", MVal::integer(1)); return o; }
+    if (cls == "test_type_mismatch") {
+        // same text, different JSON type: "1" vs 1, [] vs {}, null vs false
+        for (auto& p : paths) {
+            MVal* n = resolve(d, p, p.size());
+            MVal other;
+            if (n->k == MVal::Int) other = MVal::str(std::to_string(n->i));
+            else if (n->k == MVal::Arr && n->a.empty()) other = MVal::obj();
+            else if (n->k == MVal::Obj && n->o.empty()) other = MVal::arr();
+            else if (n->k == MVal::Null) other = MVal::boolean(false);
+            else if (n->k == MVal::Bool) other = MVal::integer(n->b ? 1 : 0);
+            else continue;
+            if (r.chance(1, 2)) { o = mk_op("test", make_ptr(p)); o.set("value", other); return o; }
+        }
+        return MVal();
+    }
+    if (cls == "scalar_parent") {
+        // a location below a scalar does not exist
+        for (auto& p : paths) { MVal* n = resolve(d, p, p.size()); if (n->k != MVal::Arr && n->k != MVal::Obj && r.chance(1, 2)) { auto q = p; q.push_back("0"); o = mk_op("add", make_ptr(q)); o.set("value", MVal::integer(1)); return o; } }
+        return MVal();
+    }
+    if (cls == "bad_pointer_trailing_tilde") { o = mk_op("test", "/a~"); o.set("value", MVal::integer(1)); return o; }
     if (cls == "move_into_child") {
         // move a container into its own descendant
         std::vector<std::vector<std::string>> cands;
